@@ -166,7 +166,7 @@ def children(v, intern):
     elif isinstance(v, dict):
         vals = [x for kv in v.items() for x in kv]
     elif isinstance(v, MUTABLE_LEAF):
-        return [('imm', intern(etree.tostring(v)))]
+        return [('imm', intern(canon_xml(v)))]
     else:
         vals = []
     return [('ref', x) if is_mutable(x) else ('imm', intern(x)) for x in vals]
